@@ -1,6 +1,7 @@
 """C18 — standard-library containers and helpers meet their contracts: cross-language table agreement and
 family consistency (DESIGN §4 C18)."""
 import os
+import re
 
 import luaparse
 import syparse
@@ -86,6 +87,7 @@ def run(F, rep, tier):
     aliases(rep, mods)
     key_norm(rep, lua)
     key_injective(rep, lua)
+    keyed_table_size(rep, lua, mods)
     constructors(rep, lua)
     maybe_shape(F, rep, lua)
     index_base(rep, lua)
@@ -246,6 +248,47 @@ def key_norm(rep, lua):
                        "sylt-compiler/src/preamble.lua:%s" % line)
 
 
+def keyed_table_size(rep, lua, mods):
+    """Lua's length operator `#t` answers a *border* of the array part; for a table that is keyed by arbitrary values
+    (a dict or a set) it is not the number of entries - it is 0 for string keys and some border when integer keys happen to
+    start at 1.  No function that an external of std/dict.sy or std/set.sy hands a Dict / Set to may apply `#` to it."""
+    n = 0
+    for mname in ("dict", "set"):
+        for name, types in sorted(mods[mname]["externals"].items()):
+            g = lua.globals.get(name)
+            if not g or g[0] != "function":
+                continue
+            f = g[1]
+            for t in types:
+                if t[0] != "fn":
+                    continue
+                for i, pt in enumerate(t[2]):
+                    if pt[0] == "user" and pt[1] in ("Dict", "Set") and i < len(f["params"]):
+                        pname = f["params"][i]
+                        n += 1
+                        bad = [x for x in luaparse.walk(f["body"]) if x.get("k") == "Unop" and x.get("op") == "#"
+                               and x["e"].get("k") == "Name" and x["e"]["name"] == pname]
+                        rep.ob("KEYED-SIZE", "%s.%s|%s" % (mname, name, pname), not bad,
+                               "%s never applies the length operator to the %s it is given" % (name, pt[1].lower()) if not bad else
+                               "%s applies `#` to its %s parameter `%s`: for a keyed table that is a border of the integer keys, not the "
+                               "number of entries (`set.from_list [1, 2, 3]`, `set.remove(s, 2)`, `set.len(s)` answers 1 or 3, never 2)"
+                               % (name, pt[1].lower(), pname), "sylt-compiler/src/preamble.lua:%s" % (bad[0].get("line") if bad else f.get("line")))
+    rep.floor("KEYED-SIZE", "dict / set parameters of externals", n, 12)
+
+
+def _normalises_with_tostring(lua, form):
+    """`tostring(K)`, or `h(K)` with h a global helper that calls tostring on its parameter"""
+    if "tostring(K)" in form:
+        return True
+    m = re.match(r"^([A-Za-z_][A-Za-z0-9_]*)\(K\)$", form)
+    if m and lua.globals.get(m.group(1), (None,))[0] == "function":
+        h = lua.globals[m.group(1)][1]
+        if h["params"]:
+            return any(c.get("k") == "Call" and c["f"].get("k") == "Name" and c["f"]["name"] == "tostring" and c["args"] and
+                       c["args"][0].get("k") == "Name" and c["args"][0]["name"] == h["params"][0] for c in luaparse.walk(h["body"]))
+    return False
+
+
 def key_injective(rep, lua):
     """dict and set store entries under `tostring(key)`.  Two different keys of an allowed key type must not normalise to
     the same string.  For tuples tostring is __TUPLE_META.__tostring: it has to delimit its elements unambiguously -
@@ -257,7 +300,7 @@ def key_injective(rep, lua):
             t = st["targets"][0]
             if t.get("k") == "Index" and luaparse.show(t) == "__TUPLE_META.__tostring" and st["es"][0].get("k") == "Function":
                 f = st["es"][0]
-    uses_tostring = any("tostring(K)" in form for fam in ("dict_", "set_") for form in _key_forms(lua, fam))
+    uses_tostring = any(_normalises_with_tostring(lua, form) for fam in ("dict_", "set_") for form in _key_forms(lua, fam))
     if f is None or not uses_tostring:
         rep.anchor_missing("__TUPLE_META.__tostring / tostring(key) normalisation")
         return
